@@ -10,11 +10,11 @@ package main
 import (
 	"bufio"
 	"context"
-	"errors"
 	"database/sql"
 	"database/sql/driver"
 	"encoding/hex"
 	"encoding/json"
+	"errors"
 	"flag"
 	"fmt"
 	"os"
@@ -22,6 +22,7 @@ import (
 	"regexp"
 	"strconv"
 	"strings"
+	"sync"
 	"time"
 
 	"github.com/canonical/sqlair"
@@ -236,14 +237,14 @@ func classifyScanErr(msg string) string {
 }
 
 type scanCase struct {
-	query   string
-	samples []any
-	inargs  []any
-	dests   []any
-	mode    int      // column script mode
-	colSeed uint64   // seed for the permutation / foreign columns / cells
-	cols    []string // filled by the driver callback
-	cells   []string // "null" or the id
+	query    string
+	samples  []any
+	inargs   []any
+	dests    []any
+	mode     int        // column script mode
+	colSeed  uint64     // seed for the permutation / foreign columns / cells
+	cols     []string   // filled by the driver callback
+	cells    []string   // "null" or the id
 	rowCells [][]string // GetAll: the cells of every row
 }
 
@@ -698,6 +699,9 @@ func releaseCheck(sqldb *sql.DB, f *fakeDB) string {
 	return ""
 }
 
+var scanOtherStmt = sqlair.MustPrepare("SELECT &Address.* FROM address", Address{})
+var scanOtherStmt2 = sqlair.MustPrepare("SELECT (a, b) AS (&M.x, &Person.name), &Address.id FROM t WHERE id = $Person.id", sqlair.M{}, Person{}, Address{})
+
 // scratchDests: fresh destinations of the same types (what cannot be a destination is passed as it is).
 func scratchDests(dests []any) []any {
 	var out []any
@@ -775,6 +779,12 @@ func implScan(c *scanCase) (o scanObs) {
 			}
 		}()
 		q := db.Query(context.Background(), stmt, c.inargs...)
+		if c.colSeed%3 == 0 {
+			// other Queries with outputs are built (not run) before this one is scanned: the columns of
+			// this one still identify its own destinations
+			_ = db.Query(context.Background(), scanOtherStmt)
+			_ = db.Query(context.Background(), scanOtherStmt2, Person{ID: 3})
+		}
 		if held {
 			// a Query value may be run more than once: every run scans the columns its own result
 			// has.  The first run goes into scratch destinations of the same types.
@@ -842,6 +852,65 @@ type scanStats struct {
 	Other      int            `json:"unknown_error_wordings"`
 }
 
+// scanConcurrent: goroutines read rows of their own into destinations of one struct type at the same
+// time (one shared Statement; Get, GetAll and an open Iterator): every destination holds the values of
+// its own row.
+func scanConcurrent(rounds int, add func(violation)) {
+	stmt := sqlair.MustPrepare("SELECT &Person.* FROM person", Person{})
+	var wg sync.WaitGroup
+	var mu sync.Mutex
+	bad := ""
+	for g := 0; g < 8; g++ {
+		wg.Add(1)
+		go func(g int) {
+			defer wg.Done()
+			defer func() {
+				if rec := recover(); rec != nil {
+					mu.Lock()
+					bad = fmt.Sprintf("panic: %v", rec)
+					mu.Unlock()
+				}
+			}()
+			sqldb, f := openFake()
+			defer dropFakeDB(f.name)
+			defer sqldb.Close()
+			k := 0
+			f.rowsFor = func(string, []driver.NamedValue) *rowsScript {
+				k++
+				id := int64(g*1000000 + k)
+				return &rowsScript{Cols: []string{"_sqlair_2", "_sqlair_0", "_sqlair_1"}, FailAt: -1,
+					Rows: [][]driver.Value{{id + 2, id, fmt.Sprintf("n%d", id)}, {id + 3, id + 1, fmt.Sprintf("n%d", id+1)}}}
+			}
+			db := sqlair.NewDB(sqldb)
+			for i := 0; i < rounds; i++ {
+				var p Person
+				var ps []Person
+				var err error
+				if i%3 == 0 {
+					err = db.Query(context.Background(), stmt).GetAll(&ps)
+				} else {
+					err = db.Query(context.Background(), stmt).Get(&p)
+					ps = []Person{p}
+				}
+				id := g*1000000 + k
+				for j, q := range ps {
+					want := Person{ID: id + j, Name: fmt.Sprintf("n%d", id+j), Postcode: id + j + 2}
+					if err != nil || q != want {
+						mu.Lock()
+						bad = fmt.Sprintf("goroutine %d: got %+v (err %v), want %+v", g, q, err, want)
+						mu.Unlock()
+						return
+					}
+				}
+			}
+		}(g)
+	}
+	wg.Wait()
+	if bad != "" {
+		add(violation{"C06", "concurrent-reads-into-one-struct-type-mix-their-rows", hx("concurrent Get/GetAll of SELECT &Person.* FROM person"), bad})
+	}
+}
+
 func cmdScan(args []string) int {
 	fs := flag.NewFlagSet("scan", flag.ExitOnError)
 	seed := fs.Uint64("seed", 1, "seed")
@@ -859,6 +928,7 @@ func cmdScan(args []string) int {
 	}
 	go watchdog(addViol)
 
+	scanConcurrent(300+*n/10, addViol)
 	r := newRng(*seed)
 	sg := &scanGen{g: &bindGen{r: r, f: &filler{r: r.fork(), zeroP: 2, nilP: 2}}}
 	cases, _ := os.Create(*outDir + "/cases.txt")
